@@ -263,6 +263,10 @@ func (fc *FCtx) execAssign(s *ast.AssignStmt, st *State) {
 			op = token.SHL
 		case token.SHR_ASSIGN:
 			op = token.SHR
+		case token.OR_ASSIGN, token.AND_ASSIGN, token.XOR_ASSIGN:
+			be := &ast.BinaryExpr{X: s.Lhs[0], Op: map[token.Token]token.Token{token.OR_ASSIGN: token.OR, token.AND_ASSIGN: token.AND, token.XOR_ASSIGN: token.XOR}[s.Tok], Y: s.Rhs[0], OpPos: s.TokPos}
+			fc.bitAssign(be, s, st)
+			return
 		default:
 			oos("assignment operator %s", s.Tok)
 		}
@@ -1178,4 +1182,16 @@ func (fc *FCtx) execTypeSwitch(s *ast.TypeSwitchStmt, st *State) *Flow {
 		out.normal = append(out.normal, cur)
 	}
 	return out
+}
+
+func (fc *FCtx) bitAssign(be *ast.BinaryExpr, s *ast.AssignStmt, st *State) {
+	x := fc.eval(be.X, st)
+	y := fc.eval(be.Y, st)
+	fn := map[token.Token]string{token.OR: "bit_or", token.XOR: "bit_xor", token.AND: "bit_and"}[be.Op]
+	fc.U.Fun(fn, []*Sort{SInt, SInt}, SInt)
+	t := fc.info().TypeOf(s.Lhs[0])
+	v := Val{T: app(fn, x.T, y.T), S: SInt, GoT: t}
+	st.assume(fc.U.WF(v))
+	fc.note("bitwise " + be.Op.String() + " modelled as an uninterpreted function of its operands")
+	fc.assignTo(s.Lhs[0], v, st)
 }
